@@ -45,17 +45,6 @@ inductive Ev (α : Type) (n : Nat) where
 /-- observer (user `SolOut`): state machine; returns the flag and the (possibly rewritten) state vector -/
 abbrev Obs (σ α : Type) (n : Nat) := σ → α → α → Vec α n → Option (α → Vec α n) → σ × ObsFlag × Vec α n
 
-structure Result (σ α : Type) (n : Nat) where
-  status : Status
-  h : α
-  x : α
-  y : Vec α n
-  cnt : Counters
-  /-- number of right-hand-side calls actually made -/
-  ncalls : Nat
-  obs : σ
-  log : Array (Ev α n)
-
 /-- append the calls of a region (global numbering starts at `base`) -/
 def logCalls (log : Array (Ev α n)) (base : Nat) (calls : Array (α × Vec α n)) : Array (Ev α n) :=
   (calls.zipIdx).foldl (fun l p => l.push (Ev.ode (base + p.2) p.1.1 p.1.2)) log
@@ -65,5 +54,53 @@ def sampleInterp (ip : Option (α → Vec α n)) (xold x : α) (quarter half thr
   | none => #[]
   | some e => #[e xold, e (xold + quarter * (x - xold)), e (xold + half * (x - xold)), e (xold + threeq * (x - xold)),
                e (xold + Num.one * (x - xold))]
+
+
+/-! ### the meter: event log, number of right-hand-side calls made, the code's own counters.
+    Every solver updates it only through the helpers below, so the bookkeeping invariants (C18, C19) are proved once
+    per helper. -/
+structure Meter (α : Type) (n : Nat) where
+  log : Array (Ev α n) := #[]
+  ncalls : Nat := 0
+  cnt : Counters := {}
+
+namespace Meter
+/-- a translated region made `calls` and the code added the literal `lit` to `evals.ode` -/
+def bump (m : Meter α n) (calls : Array (α × Vec α n)) (lit : Nat) : Meter α n :=
+  { log := logCalls m.log m.ncalls calls, ncalls := m.ncalls + calls.size, cnt := { m.cnt with ode := m.cnt.ode + lit } }
+/-- one more attempted step (`steps.total += 1`) -/
+def incTotal (m : Meter α n) : Meter α n := { m with cnt := { m.cnt with total := m.cnt.total + 1 } }
+def incAccepted (m : Meter α n) : Meter α n := { m with cnt := { m.cnt with accepted := m.cnt.accepted + 1 } }
+def incRejected (m : Meter α n) : Meter α n := { m with cnt := { m.cnt with rejected := m.cnt.rejected + 1 } }
+/-- a callback is made -/
+def cb (m : Meter α n) (xold x : α) (y : Vec α n) (samples : Array (Vec α n)) : Meter α n :=
+  { m with log := m.log.push (Ev.cb xold x y samples) }
+/-- `ModifiedSolution`: one evaluation at `(x, y)`, counted -/
+def refresh (m : Meter α n) (x : α) (y : Vec α n) : Meter α n :=
+  { log := m.log.push (Ev.ode m.ncalls x y), ncalls := m.ncalls + 1, cnt := { m.cnt with ode := m.cnt.ode + 1 } }
+end Meter
+
+structure Result (σ α : Type) (n : Nat) where
+  status : Status
+  h : α
+  x : α
+  y : Vec α n
+  /-- event log, number of right-hand-side calls actually made, the code's counters -/
+  m : Meter α n
+  obs : σ
+
+/-- the outcome of a callback, shared by all skeletons: `Interrupt` ends the run; `ModifiedSolution` re-evaluates
+    the derivative at the state the callback wrote; otherwise the FSAL derivative `kNext` is kept -/
+inductive AfterCb (σ α : Type) (n : Nat) where
+  | stop (obs : σ) (y : Vec α n)
+  | go (obs : σ) (y : Vec α n) (k1 : Vec α n) (m : Meter α n)
+
+def afterCb {σ : Type} (f : Rhs α n) (ob : Obs σ α n) (obs : σ) (m : Meter α n) (xold x : α) (y : Vec α n)
+    (ip : Option (α → Vec α n)) (kNext : Vec α n) : AfterCb σ α n :=
+  let r := ob obs xold x y ip
+  match r.2.1 with
+  | .interrupt => .stop r.1 r.2.2
+  | .modified => .go r.1 r.2.2 (f m.ncalls x r.2.2) (m.refresh x r.2.2)
+  | .cont => .go r.1 r.2.2 kNext m
 
 end Ctl
